@@ -72,3 +72,12 @@ Returned as (day number of that Thursday) so that year and week are read off the
 def isoThursday (n : Int) : Int := n - weekdayOf n + 3
 
 end Chrono.Spec
+
+namespace Chrono.Spec
+/-- a representative year with the leap status encoded in year flags `f` (bit 3 set = common year) -/
+def repYear (f : Nat) : Int := if f / 8 % 2 = 1 then 1 else 0
+
+/-- month and day of the `o`-th day of a year with the given leap status -/
+def monthOfYo (y : Int) (o : Nat) : Nat := monthOfOrdinal (isLeap y) o
+def dayOfYo (y : Int) (o : Nat) : Nat := o - ordinalOf y (monthOfYo y o) 1 + 1
+end Chrono.Spec
